@@ -8,5 +8,6 @@ CONSTANTS
   Slim = FALSE
   Rich = FALSE
   HistLen = 16
+  CondMix = FALSE
 INVARIANTS EmitHist InvWellFormed
 CHECK_DEADLOCK FALSE
